@@ -28,6 +28,7 @@ import ast
 import itertools
 
 from .model import is_self_attr, call_name
+from .spec import CLOCKS
 from .paths import Interp, Domain, Env, TOP, NONE, Const, TupleV, Exc, ORD, Opaque
 from .colls import ExactCollections, carry_over, deref, Ref, DictV, content
 
@@ -113,7 +114,7 @@ class FailDomain(ExactCollections, Domain):
 
     def call(self, node, fval, args, kwargs, state):
         name = call_name(node)
-        if name == "time.time":
+        if name in CLOCKS:
             return [("ok", Const(state.get("#clock", T0)), state)]
         if name.startswith("logger.") or name == "check_key_helper":
             return [("ok", NONE, state)]
